@@ -1382,13 +1382,23 @@ static int64_t btls_get_cnt(struct xcm_socket *conn_s, enum xcm_tp_cnt cnt)
     return bts->conn.cnts[cnt];
 }
 
+/* attributes writable only at socket creation */
+static bool is_past_creation(struct xcm_socket *s)
+{
+    struct btls_socket *bts = TOBTLS(s);
+
+    if (s->type == xcm_socket_type_conn)
+	return bts->conn.state != conn_state_initialized;
+    else
+	return bts->server.created;
+}
+
 static int set_client_attr(struct xcm_socket *s, void *context,
 			   const void *value, size_t len)
 {
     struct btls_socket *bts = TOBTLS(s);
 
-    if (s->type == xcm_socket_type_conn &&
-	bts->conn.state != conn_state_initialized) {
+    if (is_past_creation(s)) {
 	errno = EACCES;
 	return -1;
     }
@@ -1407,10 +1417,7 @@ static int get_client_attr(struct xcm_socket *s, void *context,
 static int set_early_bool_attr(struct xcm_socket *s, bool *attr,
 			       const void *value, size_t len)
 {
-    struct btls_socket *bts = TOBTLS(s);
-
-    if (s->type == xcm_socket_type_conn &&
-	bts->conn.state != conn_state_initialized) {
+    if (is_past_creation(s)) {
 	errno = EACCES;
 	return -1;
     }
@@ -1459,10 +1466,7 @@ static int get_check_time_attr(struct xcm_socket *s, void *context,
 static int set_file_attr(struct xcm_socket *s, const void *filename,
 			 size_t len, struct item *target, bool *mark)
 {
-    struct btls_socket *bts = TOBTLS(s);
-
-    if (s->type == xcm_socket_type_conn &&
-	    bts->conn.state != conn_state_initialized) {
+    if (is_past_creation(s)) {
 	    errno = EACCES;
 	    return -1;
 	}
@@ -1551,10 +1555,7 @@ static bool has_nul(const char *s, size_t len)
 static int set_value_attr(struct xcm_socket *s, const void *value, size_t len,
 			  struct item *target, bool sensitive, bool *mark)
 {
-    struct btls_socket *bts = TOBTLS(s);
-
-    if (s->type == xcm_socket_type_conn &&
-	    bts->conn.state != conn_state_initialized) {
+    if (is_past_creation(s)) {
 	    errno = EACCES;
 	    return -1;
 	}
@@ -1646,8 +1647,7 @@ static int set_verify_peer_name_attr(struct xcm_socket *s, void *context,
 {
     struct btls_socket *bts = TOBTLS(s);
 
-    if (s->type == xcm_socket_type_conn &&
-	bts->conn.state != conn_state_initialized) {
+    if (is_past_creation(s)) {
 	errno = EACCES;
 	return -1;
     }
@@ -1670,8 +1670,7 @@ static int set_peer_names_attr(struct xcm_socket *s, void *context,
 {
     struct btls_socket *bts = TOBTLS(s);
 
-    if (s->type == xcm_socket_type_conn &&
-	bts->conn.state != conn_state_initialized) {
+    if (is_past_creation(s)) {
 	errno = EACCES;
 	return -1;
     }
